@@ -418,6 +418,41 @@ _FAMILY_EXT = External(
     note="proved separately (contract _find_attrpath_family); used through its postcondition because the tuple mixes references and a sequence")
 
 # ---------------------------------------------------------------------------------------------
+# the walk to the parent set of a path through explicitly written nested sets (optionally creating the missing ones).  Proved on the
+# real code, against the assumed lookup contract of AttributeSet.__getitem__: without `create_missing` nothing is written; every
+# refusal (ValueError: a non-set on the path; KeyError: a missing segment) leaves the heap untouched - once a set had to be created
+# the walk continues inside fresh, empty sets where nothing can be refused any more; what is created is an empty set under a name
+# the current set does not bind; the set handed back is well-formed.  (That old lists only ever grow at their end is NOT proved:
+# the induction over the loop times out; the `set` dispatcher keeps that clause as an assumption.)
+contract(
+    target=f"{M}::_resolve_npath_parent",
+    params={"target_set": Ref("AttributeSet"), "npath": Str, "create_missing": Bool},
+    returns=Tup(Ref("AttributeSet"), Str),
+    entry_closure=True,
+    requires=["target_set.values is not target_set.attrpath_order", "distinct_elems(target_set.values)", "distinct_elems(target_set.attrpath_order)"],
+    modifies=["*"],
+    ensures=["result[0] is not None", "implies(not create_missing, heap_unchanged())",
+             "result[0].values is not result[0].attrpath_order and distinct_elems(result[0].values) and distinct_elems(result[0].attrpath_order)"],
+    call_asserts={
+        # what is created on the way: an empty set under a name the current set does not bind yet
+        "AttributeSet.__setitem__": ["create_missing", "first_binding(self.values, key) is None",
+                                     "isinstance(value, AttributeSet) and value >= alloc_at_entry() and len(value.values) == 0"],
+    },
+    exsures={"ValueError": ["heap_unchanged()"], "KeyError": ["heap_unchanged()", "not create_missing"]},
+    loops={0: Loop(invariant=["isinstance(current, AttributeSet)",
+                              "current.values is not current.attrpath_order and distinct_elems(current.values) and distinct_elems(current.attrpath_order)",
+                              "implies(not create_missing, heap_unchanged())",
+                              # until a set has to be created nothing is written; from then on the walk is inside fresh, empty sets (nothing can be
+                              # refused any more) and the only old lists that changed have grown at their end
+                              "heap_unchanged() or current >= alloc_at_entry()",
+                              "heap_unchanged() or len(current.values) == 0",
+                              "heap_unchanged() or (current.values >= alloc_at_entry() and current.attrpath_order >= alloc_at_entry())",
+                              ], modifies=["*"])},
+    domain=False,
+    props=EDIT_PROPS + ["C14"],
+)
+
+# ---------------------------------------------------------------------------------------------
 # the dispatcher of `rm` inside one attribute set: which of the three removal routes is taken is decided from two lookups, and
 # nothing is written before the route that was chosen writes (C08: a refused removal leaves the document as it was; C05: a
 # path is refused only because a key is missing, not because of the form it was written in).
@@ -451,13 +486,6 @@ contract(
     externals={
         "_format_npath_segments": External(returns=ArrOf("str"), params=["npath"], exsures={"ValueError": []},
                                            note="proved separately for its text (C12); here only: a pure function of the path"),
-        "_resolve_npath_parent": External(returns=Tup(Ref("AttributeSet"), Str), params=["target_set", "npath", "create_missing"],
-                                          ensures=["heap_unchanged()", "result[0] is not None",
-                                                   # representation invariant of the AttributeSet handed back (assumed for every set of the document)
-                                                   "result[0].values is not result[0].attrpath_order", "distinct_elems(result[0].values)",
-                                                   "distinct_elems(result[0].attrpath_order)"],
-                                          exsures={"ValueError": ["heap_unchanged()"], "KeyError": ["heap_unchanged()"]},
-                                          note="with create_missing=False the walk only reads (assumed; covered by the bounded stand-in of C08)"),
         "_find_attrpath_family": _FAMILY_EXT,
     },
     call_asserts={
@@ -539,4 +567,24 @@ contract(
     # (not listed for C09, which claims `proof`: the clause `not existing_binding.nested` is false on the unchanged tree - an attrpath
     # family inside an explicitly written nested set, `m = { x.y = 1; }; set m.x 5` - and stays undecided; see known findings)
     props=["C04", "C05", "C08", "C19", "C11"],
+)
+
+# existence test used by `set` to decide whether a scoped path addresses the body (the pinned shortcut): a pure walk
+contract(
+    target=f"{M}::_path_exists_in_attrset",
+    params={"target_set": Ref("AttributeSet"), "segments": ArrOf("str")},
+    returns=Bool,
+    entry_closure=True,
+    modifies=[],
+    ensures=[
+        "heap_unchanged()",
+        "implies(len(segments) == 0, not result)",
+        # a one-segment path exists exactly when the set binds that name itself (not merely as the root of an attrpath family)
+        "implies(len(segments) == 1, iff(result, first_binding(target_set.values, segments[0], False) is not None))",
+    ],
+    # (the iteration that reaches the last segment always returns: the loop is never left through its end on a non-empty path)
+    loops={0: Loop(invariant=["isinstance(current, AttributeSet)", "implies(_i == 0, current is target_set)",
+                              "implies(len(segments) > 0, _i < len(segments))"])},
+    domain=False,
+    props=EDIT_PROPS,
 )
